@@ -93,7 +93,7 @@ def gen_abf(r, cid, big=False):
         elif ev[0] == "r":
             first[w] = True
             last[w] = t[w]
-    return {"kind": "abf", "id": cid, "output": output, "integrate": r.random() < 0.6, "n": n, "nd": nd, "nbins": nbins, "freq": F, "apply": r.random() < 0.7,
+    return {"kind": "abf", "id": cid, "output": output, "integrate": r.random() < 0.6, "smp": r.random() < 0.25, "n": n, "nd": nd, "nbins": nbins, "freq": F, "apply": r.random() < 0.7,
             "full": r.choice([1, 2, 200]), "events": events}
 
 
@@ -266,11 +266,15 @@ def check_abf(run, exe, model, cases, scratch):
             out, stats = run_twice(scen.run_abf, exe, c, scratch, timeout=10.0)
         except W.WalkerTimeout as e:
             ndead += 1
-            run.violation("abf:exchange-deadlock", "the walkers did not complete the schedule (%s): a walker waits for an "
+            run.violation("abf:walker-crashed" if "exited (rc=-" in str(e) else "abf:exchange-deadlock", "the walkers did not complete the schedule (%s): a walker waits for an "
                           "exchange the others do not perform, or a message is missing; case %s" % (str(e)[:200], key),
                           {"kind": "abf", "case": c})
             continue
         mres = parse_model_abf(mo)
+        par = [x for s_ in stats for x in s_ if "parallel=" in x and "parallel=0" not in x]
+        if par:
+            run.violation("abf:replica-calls-in-parallel-bias-loop", "with the engine's thread pool on, replica_comm calls were made from inside the parallel "
+                          "loop over the biases: %s" % par[:2], {"kind": "abf", "case": c})
         bad_stats = [s for s in stats if not any("errors=0" in x for x in s)]
         if bad_stats:
             ndead += 1
@@ -1061,7 +1065,7 @@ def gen_opes(r, cid, big=False):
     if variant != "plain":
         # close positions, so that kernels are merged / neighbour lists differ / the adaptive width matters
         steps = [[V.dyadic(r, -1, 1, bits=4) for _ in range(n)] for _ in range(T + 4)]
-    return {"kind": "opes", "id": cid, "n": n, "pace": pace, "variant": variant, "steps": steps}
+    return {"kind": "opes", "id": cid, "n": n, "pace": pace, "variant": variant, "smp": r.random() < 0.4, "steps": steps}
 
 
 def check_opes(run, exe, model, cases, scratch):
@@ -1073,6 +1077,11 @@ def check_opes(run, exe, model, cases, scratch):
             res, stats = run_twice(scen.run_opes, exe, c, scratch, timeout=15.0)
         except W.WalkerTimeout as e:
             run.violation("opes:gather-deadlock", "the walkers did not complete the schedule (%s)" % str(e)[:200], {"kind": "opes", "case": c})
+            continue
+        par = [x for s_ in stats for x in s_ if "parallel=" in x and "parallel=0" not in x]
+        if par:
+            run.violation("opes:replica-calls-in-parallel-bias-loop", "OPES with multiple walkers and the engine's thread pool on (a second bias defined): the "
+                          "exchange of kernels and weights ran inside the parallel loop over the biases: %s" % par[:2], {"kind": "opes", "case": c})
             continue
         rounds = []
         for t, row in enumerate(c["steps"]):
